@@ -105,7 +105,7 @@ fn main() {
         "C06" => ("model_checking", props::c06::run(&ctx)),
         "C07" => ("model_checking", props::c07::run(&ctx)),
         "C08" => ("fault_enumeration", props::c08::run(&ctx)),
-        "C09" => ("model_checking", exhaust::seqnr::run(&ctx)),
+        "C09" => ("model_checking", props::c09::run(&ctx)),
         "C10" => ("model_checking", props::c10::run(&ctx)),
         "C11" => ("model_checking", exhaust::wire::run(&ctx)),
         "C12" => ("fault_enumeration", props::sockets::c12(&ctx)),
